@@ -1082,6 +1082,22 @@ def lit(x):
     return Value(x)
 
 
+def _same_constant(a, b) -> bool:
+    """
+    Check if two entries of a list or dictionary constant are the same constant
+    (terms by is_equal(); plain values by type and value, nan being the same constant as nan).
+    """
+    if isinstance(a, PreTerm) or isinstance(b, PreTerm):
+        if not (isinstance(a, PreTerm) and isinstance(b, PreTerm)):
+            return False
+        return a.is_equal(b)
+    if type(a) != type(b):
+        return False  # 1, 1.0 and True are different constants
+    if a != a:
+        return b != b
+    return a == b
+
+
 class ListTerm(PreTerm):
     """
     Class to hold a collection.
@@ -1100,7 +1116,12 @@ class ListTerm(PreTerm):
         # can't use == as that builds a larger expression
         if not isinstance(other, ListTerm):
             return False
-        return self.value == other.value
+        # can't use == on the lists: == on Value elements builds a (truthy) expression
+        if len(self.value) != len(other.value):
+            return False
+        return all(
+            _same_constant(lft, rgt) for lft, rgt in zip(self.value, other.value)
+        )
 
     def act_on(self, arg, *, expr_walker: ExpressionWalker):
         """
